@@ -393,7 +393,7 @@ def _gen_eval(rng, max_stages, p_bad=0.25, calls=True):
             return S.sequence([node(depth - 1) for _ in range(rng.randint(0, 3))])
         return S.leaf(rng.choice([1, 2, "x", None, True, 2.5, 0, ""]))
 
-    doc = S.mapping([(k, node(2)) for k in rng.sample(keys, rng.randint(2, 4))])
+    doc = S.mapping([(k, node(rng.choice([2, 3]))) for k in rng.sample(keys, rng.randint(2, 4))])
     paths = [p for p, _ in _paths_of_sd(doc) if p and all(isinstance(x, (str, int)) and not isinstance(x, bool) for x in p)
              and isinstance(p[0], str)]
     for h in holes:
@@ -426,7 +426,7 @@ def _eval_nontrivial(docs):
 EVAL = {
     "C09": {
         "invariants": ["Inv_C09", "StepBound"],
-        "exh": {"quick": [("EU_C09_DocsS", 1, 1)], "thorough": [("EU_C09_Docs", 1, 1)]},
+        "exh": {"quick": [("EU_C09_DocsS", 1, 1), ("EU_C09_DocsC", 1, 1)], "thorough": [("EU_C09_Docs", 1, 1), ("EU_C09_DocsC", 1, 1)]},
         "liveness": {"quick": [("EU_C09_DocsS", 1, 1)], "thorough": [("EU_C09_DocsS", 1, 1)]},
         "mutations": [{"switch": "NoCycleCheck", "docs": "EU_C09_DocsS", "stages": (1, 1), "expect": ["Terminates"]},
                       {"mutation": "CopyOnXRef", "docs": "EU_C09_DocsS", "stages": (1, 1), "expect": ["Inv_C09"]}],
